@@ -36,7 +36,8 @@ DILATION_SIDES = [{"L": b"\xff" * 8, "F": b"\x00" * 8},
 class FullWorld:
     """names: "L" is the wormhole with the greater side (Leader), "F" the other"""
 
-    def __init__(self, dilation=("L", "F"), variant=0):
+    def __init__(self, dilation=("L", "F"), variant=0, no_listen=()):
+        self.no_listen = set(no_listen)
         self.dsides = DILATION_SIDES[variant % len(DILATION_SIDES)]
         self.mb = MailboxWorld(seed=0, clients=(("F", "deferred"), ("L", "deferred")), sides=SIDE_BYTES,
                                dilation=True, versions=None)
@@ -208,7 +209,10 @@ class FullWorld:
             # the dilation side (make_side(): fresh random bytes) decides the role: pin it
             from ..mbworld import pinned_urandom
             with pinned_urandom(self.dsides[x]):
-                self.api[x] = self.cl[x].w.dilate()
+                kw = dict(getattr(self, "dilate_kwargs", {}))
+                if x in self.no_listen:
+                    kw["no_listen"] = True
+                self.api[x] = self.cl[x].w.dilate(**kw)
         elif a == "VersionsArrive":
             self._deliver_held(x, lambda fr: fr["phase"] == "version")
         elif a == "MailboxDeliver":
@@ -262,6 +266,22 @@ class FullWorld:
                     raise RuntimeError("the Leader has no ping timer running")
                 reactor.rightNow = max(reactor.rightNow, t.getTime())
                 reactor.run_call(t)
+        elif a == "KeepAlive":
+            # one ping interval passes: the Leader's interval timer expires, its ping travels, the Follower's pong comes back
+            tc = [dc for dc in reactor.getDelayedCalls() if getattr(dc.func, "__name__", "") == "timer_expired"]
+            if not tc:
+                raise RuntimeError("no ping interval timer is running")
+            reactor.rightNow = max(reactor.rightNow, min(dc.getTime() for dc in tc))
+            self.run_auto_timers()
+            link = self.links[i]
+            for _ in range(20):
+                moved = False
+                for e in (0, 1):
+                    while link.can_deliver(e):
+                        self.deliver_unit(link, e)
+                        moved = True
+                if not moved:
+                    break
         elif a == "ObserveLoss":
             link = self.links[i]
             e = self.end_of(link, x)
@@ -488,8 +508,8 @@ BENIGN = ("no transition for MethodicalInput(method=<function Connector.accept",
           "no transition for MethodicalInput(method=<function Connector.add_candidate")
 
 
-def replay_behaviour(tid, states):
-    w = FullWorld(variant=tid)
+def replay_behaviour(tid, states, no_listen=(), then_stop=()):
+    w = FullWorld(variant=tid, no_listen=no_listen)
     drift = None
     for i, st in enumerate(states[1:], start=1):
         la = st["last"]
@@ -509,6 +529,12 @@ def replay_behaviour(tid, states):
                     d.append("%s.closed: spec=%s real=%s" % (n, ss[n]["closed"], rs[n]["closed"]))
             if d:
                 drift = {"step": i, "action": list(la), "diff": d[:5]}
+    for x in then_stop:
+        # beyond the behaviour: the application closes now (judged at rest only)
+        try:
+            w.do(("Stop", x, 0))
+        except Exception as e:
+            w.internal.append("then_stop: %r" % (e,))
     # the judgement by the behaviour's own final state first ...
     at_end = w.state()
     # ... then let everything that can still happen by itself happen (no new faults, no new application calls) and look
@@ -589,7 +615,10 @@ def run(prop, tier):
         both = {"L", "F"}
         if prop == "C11":
             cfgs = {"two_links": (dict(MaxLinks=2, MaxCuts=1, Dilaters=both, AllowStop=set()), []),
-                    "three_links_cut": (dict(MaxLinks=3, MaxCuts=1, Dilaters=both, AllowStop=set()), [])}
+                    "three_links_cut": (dict(MaxLinks=3, MaxCuts=1, Dilaters=both, AllowStop=set()), []),
+                    # one side cannot be dialled (no_listen=True: behind NAT): the other's hints are the only way to connect
+                    "leader_no_listen": (dict(MaxLinks=3, MaxCuts=1, Dilaters=both, AllowStop=set(), NoListen={"L"}), []),
+                    "follower_no_listen": (dict(MaxLinks=3, MaxCuts=1, Dilaters=both, AllowStop=set(), NoListen={"F"}), [])}
             if not quick:
                 cfgs["four_links_two_cuts"] = (dict(MaxLinks=4, MaxCuts=2, Dilaters=both, AllowStop=set()), [])
             gen = dict(MaxLinks=6, MaxCuts=2, Dilaters=both, AllowStop=set())
@@ -601,7 +630,9 @@ def run(prop, tier):
                 cfgs["stop_both"] = (dict(MaxLinks=3, MaxCuts=1, Dilaters=both, AllowStop=both), [])
             gen = dict(MaxLinks=6, MaxCuts=2, Dilaters=both, AllowStop=both)
         behaviours = []
+        gen.setdefault("NoListen", set())
         for name, (consts, props) in cfgs.items():
+            consts.setdefault("NoListen", set())
             m = "MC_%s_%s" % (prop, name)
             common.write_model(wd, m, "DilationL3", consts, invariants=INV, properties=props)
             r = tlc.run(m + ".tla", m + ".cfg", cwd=wd.path, timeout=3000)
@@ -610,7 +641,7 @@ def run(prop, tier):
             states += r.distinct
             transitions += r.generated
             if r.violated:
-                behaviours.append(("tlc-cex:" + name, r.trace))
+                behaviours.append(("tlc-cex:" + name, r.trace, consts["NoListen"]))
             elif not r.ok:
                 raise RuntimeError("TLC failed on %s: %s" % (m, r.error or r.stdout[-1500:]))
         g = "MC_%s_gen" % prop
@@ -619,7 +650,16 @@ def run(prop, tier):
         os.makedirs(simdir)
         tlc.run(g + ".tla", g + ".cfg", cwd=wd.path, workers=6, simulate={"num": (60 if quick else 600) // 6, "file": os.path.join(simdir, "tr")},
                 depth=70, seed=seed + 11, timeout=900)
-        behaviours += [("tlc-sim", tr) for tr in tlc.read_sim_traces(os.path.join(simdir, "tr"))]
+        behaviours += [("tlc-sim", tr, ()) for tr in tlc.read_sim_traces(os.path.join(simdir, "tr"))]
+        if prop == "C11":
+            for nl in ("L", "F"):
+                g2 = "MC_%s_gen_nl%s" % (prop, nl)
+                common.write_model(wd, g2, "DilationL3", dict(gen, NoListen={nl}))
+                sd = wd.file("sim_nl" + nl)
+                os.makedirs(sd)
+                tlc.run(g2 + ".tla", g2 + ".cfg", cwd=wd.path, workers=6, simulate={"num": (30 if quick else 300) // 6, "file": os.path.join(sd, "tr")},
+                        depth=70, seed=seed + 12, timeout=900)
+                behaviours += [("tlc-sim:no_listen=" + nl, tr, (nl,)) for tr in tlc.read_sim_traces(os.path.join(sd, "tr"))]
         # coverage goals: shortest behaviours reaching situations random simulation seldom does; each is then completed
         # fairly on the real stack (run_out) and judged at rest
         goals = {
@@ -646,18 +686,36 @@ def run(prop, tier):
                 "stop_while_dialling": "\\E x \\in Sides : stopReq[x] /\\ last[1] = \"Stop\" /\\ \\E i \\in LinkIds : links[i].phase = \"dial\" /\\ links[i].dialer = x",
                 "stop_connected_both": 'stopReq.L /\\ last[1] = "Stop" /\\ sel.L > 0 /\\ sel.F = sel.L',
                 "both_stop": "stopReq.L /\\ stopReq.F /\\ nlinks >= 1",
+                # a connection that has been up for a ping interval (the close itself is added on the real side: then_stop)
+                "keepalive_first_connection": 'last[1] = "KeepAlive" /\\ cuts = 0',
+                "keepalive_after_reconnect": 'last[1] = "KeepAlive" /\\ cuts >= 1',
             }
-        wit, unreached = common.witnesses(wd, "DilationL3", dict(MaxLinks=3, MaxCuts=1, Dilaters=both, AllowStop=(both if prop == "C17" else set())),
+        wit, unreached = common.witnesses(wd, "DilationL3", dict(MaxLinks=3, MaxCuts=1, Dilaters=both, AllowStop=(both if prop == "C17" else set()), NoListen=set()),
                                           goals, "MC_%s_goal" % prop, timeout=900)
         cov["witness_goals"] = {"reached": [g_ for g_, _ in wit], "unreached": unreached}
-        behaviours += [("tlc-witness:" + g_, tr) for g_, tr in wit]
-        for origin, tr in behaviours:
+        behaviours += [("tlc-witness:" + g_, tr, ()) for g_, tr in wit]
+        if prop == "C11":
+            # the same situations with one side unable to listen: whoever notices the loss first, the side that can dial must
+            # learn the other's new hints
+            for nl in ("L", "F"):
+                sub = {k: goals[k] for k in ("follower_lonely", "follower_abandoning", "leader_flushing_follower_connecting", "reconverged")}
+                wit2, unr2 = common.witnesses(wd, "DilationL3", dict(MaxLinks=3, MaxCuts=1, Dilaters=both, AllowStop=set(), NoListen={nl}),
+                                              sub, "MC_%s_goal_nl%s" % (prop, nl), timeout=900)
+                cov["witness_goals"]["no_listen_" + nl] = {"reached": [g_ for g_, _ in wit2], "unreached": unr2}
+                behaviours += [("tlc-witness:no_listen=%s:%s" % (nl, g_), tr, (nl,)) for g_, tr in wit2]
+        for origin, tr, nolisten in list(behaviours):
+            if origin.startswith("tlc-witness:keepalive"):
+                # the same connection, closed by the Leader's / the Follower's / both applications after that interval
+                behaviours.append((origin + "+stop=L", tr, nolisten))
+                behaviours.append((origin + "+stop=F", tr, nolisten))
+                behaviours.append((origin + "+stop=LF", tr, nolisten))
+        for origin, tr, nolisten in behaviours:
             tid += 1
-            w, rec, drift = replay_behaviour(tid, tr)
+            w, rec, drift = replay_behaviour(tid, tr, no_listen=nolisten, then_stop=tuple(origin.split("+stop=")[1]) if "+stop=" in origin else ())
             rec["origin"] = origin
             rec["oldpeer"] = {"ok": True, "closed": True}
             records.append(rec)
-            meta[tid] = {"schedule": w.schedule}
+            meta[tid] = {"schedule": w.schedule, "no_listen": sorted(nolisten)}
             if drift:
                 ndrift += 1
                 if len(cov["drift"]) < 8:
@@ -713,7 +771,7 @@ def run(prop, tier):
         "mailbox control messages are FIFO per sender; the versions message precedes the peer's dilation messages",
         "NoTransition on a *stopped* Connector (queued accept / late KCM) is logged by the real code and has no further effect: "
         "reported in evidence, not judged (DESIGN 3.1)",
-        "Noise stand-in; no relay; both sides listen on 127.0.0.1"])
+        "Noise stand-in; no relay; sides listen on 127.0.0.1 (configurations with one side no_listen=True included for C11)"])
 
 
 def replay(prop, path):
